@@ -706,6 +706,10 @@ def gen_subquery_query(rnd):
                  else [("obj", i) for i in range(nobj) if rnd.random() < 0.85])
     yt = ("var", "y") if ykind == "int" else ("attr", ("var", "y"), "a")
     subcond = None if rnd.random() < 0.3 else ("cmp", rnd.choice(list(OPS)), yt, ("lit", rnd.randrange(0, 3)))
+    if ykind == "obj" and rnd.random() < 0.3:
+        # a boolean attribute as (part of) the sub-query's condition
+        yf = ("truth", ("attr", ("var", "y"), "f"))
+        subcond = rnd.choice([yf, ("not", yf), ("and", yf, subcond) if subcond else yf, ("and", subcond, yf) if subcond else ("not", yf)])
     sub = ("subq", "y", subcond)
     xv = rnd.choice(outer)
     other = ("attr", ("var", xv), "a") if ykind == "int" or rnd.random() < 0.5 else ("var", xv)
